@@ -13,3 +13,17 @@ PROPS = {
         "not_decided": "That both entities end within their limits and report the cancel condition under loss (handshake liveness, timing).",
     },
 }
+PROPS.update({
+    "C13": {
+        "decided": "Dispatch tables and sequencing structure: in process_request / get_not_performed / get_status / as_u8 each action's arm reports only that action's status type and reports Successful only on the Ok edge of that action's own operation; requests are processed in list order inside finalisation only (single call site, receive-data phase), the fail-rest flag is sticky and only set from is_fail() of the response just produced, one response is pushed per request; the responses shown to the receiving user, put in the Finished PDU and handed to the sending user have the same origin.",
+        "not_decided": "Filesystem pre/post-conditions per action ('a failed request changes nothing'), CFDP conformance of the precondition choices, behaviour over request sequences.",
+    },
+    "C18": {
+        "decided": "In unacknowledged mode no write that makes an ACK, NAK or keep-alive sendable is reachable without a transmission_mode == Acknowledged test or an (inductively) already-enabled-state guard; the sender queues retransmissions only in the acknowledged arm; the receiver reports Complete only past the completeness test (C01-K); the sender's shutdown after EOF under closure is checked (recorded as a known finding on this tree).",
+        "not_decided": "That the closure handshake completes under loss and within limits; timing.",
+    },
+    "C19": {
+        "decided": "While state == Suspended has_pdu_to_send cannot return true in either transaction type and every send_pdu call sits on the select! branch that this precondition disables; no entry point that can run while suspended arms a timer unless state != Suspended (violations on this tree are recorded known findings, keyed per arming site).",
+        "not_decided": "Completion after resume, timers counting only un-suspended time (timing).",
+    },
+})
